@@ -731,26 +731,30 @@ class CSSCalc(CSSFunction):
 
         types = self._prods  # rename!
 
+        # (white space may be split by comments into more than one S token)
+        def _S(minimum):
+            return Sequence(PreDef.S(), minmax=lambda: (minimum, None))
+
         _operator = Choice(Prod(name='Operator */',
                                 match=lambda t, v: v in '*/',
                                 toSeq=lambda t, tokens: (t[0], t[1])
                                 ),
                            Sequence(
-                               PreDef.S(),
+                               _S(1),
                                Choice(
                                    Sequence(
                                        Prod(name='Operator */',
                                             match=lambda t, v: v in '*/',
                                             toSeq=lambda t, tokens: (t[0], t[1])
                                             ),
-                                       PreDef.S(optional=True)
+                                       _S(0)
                                    ),
                                    Sequence(
                                        Prod(name='Operator +-',
                                             match=lambda t, v: v in '+-',
                                             toSeq=lambda t, tokens: (t[0], t[1])
                                             ),
-                                       PreDef.S()
+                                       _S(1)
                                    ),
                                    PreDef.funcEnd(stop=True, mayEnd=True)
                                )
@@ -766,7 +770,7 @@ class CSSCalc(CSSFunction):
                               toSeq=lambda t, tokens: (t[0],
                                                        normalize(t[1]))
                               ),
-                         PreDef.S(optional=True),
+                         _S(0),
                          _operant(),
                          Sequence(_operator,
                                   _operant(),
